@@ -182,7 +182,8 @@ Required(f, k, p) == LET r == RunF(f, Env("live", k, {}, NU, Inf, Inf), p) IN IF
 OutSeq(w) == LET s == SetToSortSeq({n \in Keys : w[n] # NoWrite}, <) IN [i \in 1..Len(s) |-> [n |-> s[i], v |-> w[s[i]]]]
 Honest(rp, p, a) == [prog |-> p, amt |-> a, hasreq |-> TRUE, rd |-> rp.rd, rdx |-> <<>>, wl |-> OutSeq(rp.wr), fw |-> FALSE, ev |-> rp.ev, dcin |-> rp.cin,
                      dcout |-> rp.cout, lim |-> rp.lim, fee |-> IF rp.gas > 0 THEN rp.gas ELSE -1, toC |-> a,
-                     rin |-> rp.cin, rout |-> rp.cout]
+                     rin |-> rp.cin, rout |-> rp.cout,
+                     extra |-> 0]     \* gas of a SECOND request of the transaction (an effect-free "use c 1" with limits for exactly that); 0: none
 Declared(tx) == {n \in Keys : tx.rd[n] # Undecl}
 Written(tx) == {tx.wl[i].n : i \in 1..Len(tx.wl)}
 RecVals(tx, n) == {tx.wl[i].v : i \in {i \in 1..Len(tx.wl) : tx.wl[i].n = n}}          \* the values the records of key n declare
@@ -247,6 +248,10 @@ Params(kind, tx) ==
     [] kind = "cin_steal"   -> IF tx.dcin < NU THEN {T(kind, 0, "", 0, "", <<>>)} ELSE {}
     [] kind = "cin_extra"   -> IF tx.dcin < NU THEN {T(kind, 0, "", 0, "", <<>>)} ELSE {}
     [] kind = "req_drop"    -> {T(kind, 0, "", 0, "", <<>>)}
+    \* a second request (effect-free, uses one unit of gas, declares limits for exactly that) is appended: paid for (the fee grows
+    \* by its gas) or not (every request fits into the fee on its own, their sum does not)
+    [] kind = "req2_paid"   -> {T(kind, 0, "", 0, "", <<>>)}
+    [] kind = "req2_unpaid" -> {T(kind, 0, "", 0, "", <<>>)}
     [] OTHER -> {}
 Bump(fee) == (IF fee < 0 THEN 0 ELSE fee) + 1
 Tampered(tx, t, k) ==
@@ -280,11 +285,14 @@ Tampered(tx, t, k) ==
     [] t.tk = "cin_steal"   -> [tx EXCEPT !.rin = @ + 1]
     [] t.tk = "cin_extra"   -> [tx EXCEPT !.dcin = @ + 1, !.rin = @ + 1]      \* one more utxo of the vault declared and spent; the surplus is the client's change
     [] t.tk = "req_drop"    -> [tx EXCEPT !.hasreq = FALSE]
+    [] t.tk = "req2_paid"   -> [tx EXCEPT !.extra = 1, !.fee = Bump(@)]
+    [] t.tk = "req2_unpaid" -> [tx EXCEPT !.extra = 1]
 
 (* ------------------------------------------------------------------ verification --- *)
 Fresh(tx, k) == /\ \A n \in Declared(tx) : tx.rd[n] = k[n].ver                      \* GenRWSetFromTx / xmodel verifyInputs: every record
                 /\ \A i \in 1..Len(tx.rdx) : tx.rdx[i].ver = k[tx.rdx[i].n].ver
-GasOK(tx) == LET g == Gas(tx.lim.c, tx.lim.x) IN IF tx.fee = -1 THEN g = 0 ELSE tx.fee > 0 /\ tx.fee >= g
+(* the declared limits of ALL requests are paid for *)
+GasOK(tx) == LET g == Gas(tx.lim.c, tx.lim.x) + tx.extra IN IF tx.fee = -1 THEN g = 0 ELSE tx.fee > 0 /\ tx.fee >= g
 NoExt(tx) == Declared(tx) = {} /\ tx.rdx = <<>> /\ tx.wl = <<>> /\ ~tx.fw /\ tx.ev = <<>> /\ tx.dcin = 0 /\ tx.dcout = <<>>
 VerifyF(f, tx, k) ==
   /\ tx.rin <= tx.dcin                        \* verifyUTXOPermission: an input of the vault needs to be a declared contract input
@@ -424,7 +432,7 @@ CommitExact ==
                              /\ bal.a = sub.bal0.a - amt - resp.gas /\ bal.c = sub.bal0.c + amt
 (* each single tampering that makes the transaction claim something its execution does not produce, or pay less, is refused *)
 MustReject == {"read_ver", "write_drop", "write_add", "write_val", "write_dup", "write_app", "write_bucket", "cin_steal", "limit_below", "fee_below", "amt_req", "amt_out",
-               "ev_alter", "ev_drop", "ctr_alter", "redirect", "cout_drop", "cout_less", "cout_freeze", "cin_omit", "cin_extra"}
+               "ev_alter", "ev_drop", "ctr_alter", "redirect", "cout_drop", "cout_less", "cout_freeze", "cin_omit", "cin_extra", "req2_unpaid"}
 TamperRejected == (Done /\ sub.t.tk \in MustReject) => sub.res = "reject"
 (* a declared read that is not current *)
 StaleRejected == /\ (Done /\ il # 0 /\ sub.tx.rd[il] # Undecl) => sub.res = "reject"
@@ -439,7 +447,7 @@ AdmittedSound ==
         /\ r.st = "ok"
         /\ SameWrites(sub.tx.wl, r.out) /\ ~sub.tx.fw /\ r.ev = sub.tx.ev
         /\ r.un = sub.tx.rin /\ BagIncl(r.uout, sub.tx.rout)
-        /\ (IF sub.tx.fee > 0 THEN sub.tx.fee ELSE 0) >= Gas(r.uc, r.ux)
+        /\ (IF sub.tx.fee > 0 THEN sub.tx.fee ELSE 0) >= Gas(r.uc, r.ux) + sub.tx.extra
      /\ sub.tx.amt = 0 \/ sub.tx.toC = sub.tx.amt
 (* a rejected call changes nothing (a failed pre-execution changes nothing by construction: PreExec leaves kv and bal alone) *)
 RejectedChangesNothing == (Done /\ sub.res = "reject") => kv = sub.kv0 /\ bal = sub.bal0
